@@ -14,11 +14,18 @@ pass=$(grep -E "^# PASS:" /tmp/check_$id.log | tail -1 | awk '{print $3}')
 fail=$(grep -E "^# FAIL:" /tmp/check_$id.log | tail -1 | awk '{print $3}')
 git checkout -q -- . ; rm -f /tmp/check_$id.log
 cp seed/patch.diff seed/demo.c seed/build_demo.sh seed/notes.md $out/ 2>/dev/null
-# my check against /repo with the change applied
+# my check against the change: by default applied to /repo itself and reverted straight afterwards; with SEED_VIA_WORKTREE=1
+# (used while a background thorough run is reading /repo) against the sub-agent's own worktree with the patch applied
 cd /verif
-git -C /repo apply $out/patch.diff || { echo "patch does not apply to /repo"; exit 2; }
-python3 run.py $prop --tier quick --only "" > $out/check_output.txt 2>&1; rc=$?
-git -C /repo checkout -- .
+if [ -n "$SEED_VIA_WORKTREE" ]; then
+  git -C $wt apply $out/patch.diff || { echo "patch does not apply to worktree"; exit 2; }
+  VERIF_REPO=$wt python3 run.py $prop --tier quick --only "" > $out/check_output.txt 2>&1; rc=$?
+  git -C $wt checkout -q -- .
+else
+  git -C /repo apply $out/patch.diff || { echo "patch does not apply to /repo"; exit 2; }
+  python3 run.py $prop --tier quick --only "" > $out/check_output.txt 2>&1; rc=$?
+  git -C /repo checkout -- .
+fi
 nviol=$(grep -c "^VIOLATION" $out/check_output.txt)
 cat > $out/meta.json <<EOF
 {
